@@ -6,7 +6,6 @@ use crate::number::*;
 broadcast use crate::number::numspec::group_num;
 /// `n.is_zero()` is `n == 0` (Kani harnesses num_is_zero_* check it on the real code for exact numbers)
 pub assume_specification [Number::is_zero] (n: &Number) -> (r: bool) ensures is_exact(*n) ==> r == (vnum(*n) == 0);
-pub assume_specification [Number::to_u32] (n: &Number) -> (r: Option<u32>);
 /// (x - 0) * (-1) has the value -x:  n1*dx == nx*d1  and  nv*d1 == -n1*dv  with d1 > 0  give  nv*dx == -nx*dv
 pub proof fn lemma_neg_value(nx: int, dx: int, n1: int, d1: int, nv: int, dv: int)
     requires d1 > 0, n1 * dx == nx * d1, nv * d1 == -n1 * dv
@@ -267,6 +266,15 @@ UNITS = [{
         ]},
         # ::modulo is not under contract: Number::modulo needs `!(Float, BigInt)` (closure results are opaque to Verus), which the
         # procedure cannot establish for (modulo 5.0 <bignum>)
-        '::expt': {'props': N, 'requires': REQ},
+        '::expt': {'props': N, 'requires': REQ, 'ensures': [
+            # (expt x e): an exact answer is exactly x^e for the integer e that was passed
+            (['C08'], '''r matches Ok(c) ==> (c matches VCell::Number(v) && (num_arg(*old(vm), 2) matches Some(x) && (num_arg(*old(vm), 1) matches Some(e)
+                && (is_exact(v) && is_exact(e) ==> is_exact(x) && is_int(e) && vnum(e) >= 0 && vden(v) > 0
+                    && q_eq(vnum(v), vden(v), ipow(vnum(x), vnum(e) as nat), ipow(vden(x), vnum(e) as nat))))))'''),
+        ]},
+        '::numerator': {'props': N, 'requires': REQ, 'ensures': [(['C08'], '''r matches Ok(c) ==> (c matches VCell::Number(v) && (num_arg(*old(vm), 1) matches Some(x)
+            && (is_exact(x) ==> is_int(v) && vnum(v) == vnum(x))))''')]},
+        '::denominator': {'props': N, 'requires': REQ, 'ensures': [(['C08'], '''r matches Ok(c) ==> (c matches VCell::Number(v) && (num_arg(*old(vm), 1) matches Some(x)
+            && (is_exact(x) ==> is_int(v) && vnum(v) == vden(x))))''')]},
     },
 }]
